@@ -587,7 +587,7 @@ class ParallelTemperedChain(BaseChain):
                 chain._blobs[ii] = new_blobs[tk]
             # Reset adaptation for swapped proposals
             if self.reset_after_swap and tk != swap_index[tk]:
-                chain._reset_proposals()
+                chain.reset_proposals()
 
         self._temperature_acceptance[ii//self.swap_interval] = {
             'acceptance_ratio': ars}
